@@ -22,7 +22,7 @@
 EXTENDS HeapInv
 
 CONSTANTS MaxVars, MaxBlocks, Arities, FootK
-VARIABLES heap, hp, fp, hi, vars, peak, last
+VARIABLES heap, hp, fp, hi, vars, peak, last, hv
 
 H == [heap |-> heap, hp |-> hp, fp |-> fp, hi |-> hi]
 
@@ -122,16 +122,25 @@ Commit(h, vs, what) ==
   /\ heap' = h.heap /\ hp' = h.hp /\ fp' = h.fp /\ hi' = h.hi /\ vars' = vs
   /\ peak' = IF v.reach > peak THEN v.reach ELSE peak
   /\ last' = what
+  /\ hv' = v
 
 Init == /\ heap = <<>> /\ hp = PtrV(0, 0) /\ fp = PtrV(1, 0) /\ hi = 0 /\ vars = <<>> /\ peak = 0 /\ last = "init"
+        /\ hv = HeapView(<<>>, PtrV(0, 0), PtrV(1, 0), <<>>, 0)
 
 \* Let: an object with k fields; field j is an integer or moves variable pick[j] (each variable at most once)
+\* the moved variables (any subset that fits) occupy either the first or the last fields, the others are integers
+HSetToSeq(S) == LET RECURSIVE Go(_, _)
+                   Go(T, acc) == IF T = {} THEN acc ELSE LET x == CHOOSE y \in T : \A z \in T : y <= z IN Go(T \ {x}, Append(acc, x))
+               IN Go(S, <<>>)
 Let(k) ==
-  /\ Len(vars) < MaxVars
-  /\ \E picks \in [1..k -> 0..Len(vars)] :
-       /\ \A a, b \in 1..k : a # b /\ picks[a] # 0 => picks[a] # picks[b]
-       /\ LET vs == [j \in 1..k |-> IF picks[j] = 0 THEN IntVal ELSE vars[picks[j]]]
-              moved == {picks[j] : j \in 1..k} \ {0}
+  /\ Len(vars) < MaxVars \/ k > 0
+  /\ \E moved \in SUBSET (1..Len(vars)), atEnd \in BOOLEAN :
+       /\ Cardinality(moved) <= k
+       /\ Len(vars) - Cardinality(moved) < MaxVars
+       /\ (moved = {} => atEnd)
+       /\ LET ms == HSetToSeq(moved) n == Len(ms)
+              vs == [j \in 1..k |-> IF atEnd THEN (IF j > k - n THEN vars[ms[j - (k - n)]] ELSE IntVal)
+                                       ELSE (IF j <= n THEN vars[ms[j]] ELSE IntVal)]
               r == StoreFields(H, vs)
           IN Commit(r[1], Append(HRemove(vars, moved), ObjVal(r[2], k)), "let")
 Dup(i) == /\ Len(vars) < MaxVars /\ vars[i].t = "obj"
@@ -143,14 +152,18 @@ Switch(i) == /\ vars[i].t = "obj"
                    /\ Commit(r[1], HRemove(vars, {i}) \o r[2], "switch")
 Next == \/ \E k \in Arities : Let(k)
         \/ \E i \in 1..Len(vars) : Dup(i) \/ Drop(i) \/ Switch(i)
-vars_ == <<heap, hp, fp, hi, vars, peak, last>>
+vars_ == <<heap, hp, fp, hi, vars, peak, last, hv>>
 Spec == Init /\ [][Next]_vars_
 
 \* ---- what is checked
-View == HeapView(heap, hp, fp, Roots(vars), hi)
+View == hv
 HeapConsistent == View.why = ""
 Footprint == View.F <= peak + FootK
-Bounded == View.F <= MaxBlocks      \* state constraint of the finite model
-\* states are identified modulo the history variable `last`
-StateView == <<heap, hp, fp, hi, vars, peak>>
+CONSTANT MaxLevel
+Bounded == View.F <= MaxBlocks /\ TLCGet("level") <= MaxLevel     \* state constraint of the finite model
+\* States are identified modulo the history variable `last` and modulo the stale field words of blocks on the linear free
+\* list (they are never read: a reused block has all its first slots rewritten before it becomes reachable again).
+LiveHeap == LET lin == View.linearSet
+            IN [k \in {x \in DOMAIN heap : (x \div SlotsPerBlock) \notin lin \/ (x % SlotsPerBlock) = 0} |-> heap[k]]
+StateView == <<LiveHeap, hp, fp, vars, peak>>
 =============================================================================
